@@ -112,7 +112,7 @@ func errClass(err error) string {
 		return "block-gas-exhausted"
 	case strings.Contains(s, "intrinsic gas"):
 		return "intrinsic-gas"
-	case strings.Contains(s, "signature") || strings.Contains(s, "chain id") || strings.Contains(s, "invalid sender"):
+	case strings.Contains(s, "signature") || strings.Contains(s, "chain id") || strings.Contains(s, "invalid sender") || strings.Contains(s, "v, r, s"):
 		return "signature"
 	}
 	if len(s) > 40 {
